@@ -108,9 +108,23 @@ class Server:
     def url(self):
         return "http://127.0.0.1:%d" % self.ports[3]
 
-    def start(self, wait_s=60):
+    def start(self, wait_s=60, _retry=2):
+        """Starts the server. The ports are probed free before the server binds them, so with several servers starting at
+        once a bind can still fail: a first start that dies is retried with fresh ports (a restart keeps its ports)."""
         if self.bin is None:
             self.build()
+        first_start = self.starts == 0
+        try:
+            return self._start_once(wait_s)
+        except ToolError:
+            if not first_start or _retry <= 0:
+                raise
+            self.kill9()
+            self.ports = None
+            self.starts = 0
+            return self.start(wait_s, _retry - 1)
+
+    def _start_once(self, wait_s):
         conf = self._conf()
         self.starts += 1
         logf = open(os.path.join(self.dir, "stdout-%d.log" % self.starts), "w")
